@@ -490,3 +490,31 @@ class SubsetPair(Pair):
 
 
 CONTRACTS.append(SubsetPair())
+
+
+class RangeRoiMP(MethodPair):
+    """x / y range regions: the two axis classes fix the orientation themselves, the general class is given it"""
+    property_ids = ('C02', 'C08')
+    file = ROIF
+    cls = 'RangeROI'
+
+    def configs(self, tier):
+        return [dict(kind=k) for k in ('x', 'y', 'general')]
+
+    def make_object(self, cfg):
+        return PObj(self.cls, fields={'ori': 'y' if cfg['kind'] == 'y' else 'x', 'min': num('min'), 'max': num('max')})
+
+    def globals_(self, cfg, st):
+        # `cls is XRangeROI`: the class the loader is called on is one of the two axis classes (then identical to the constructor under
+        # test) or the general one (then neither)
+        ctor = getattr(st, 'ctor', None)
+        return {'XRangeROI': ctor if cfg['kind'] == 'x' else PObj('class-object', fields={'name': 'XRangeROI'}),
+                'YRangeROI': ctor if cfg['kind'] == 'y' else PObj('class-object', fields={'name': 'YRangeROI'})}
+
+    def expect(self, cfg, st, a, k, f):
+        if cfg['kind'] == 'general':
+            return [('orientation-and-bounds-as-saved', len(a) == 1 and a[0] == f['ori'] and set(k) == {'min', 'max'} and k['min'] is f['min'] and k['max'] is f['max'])]
+        return [('bounds-as-saved(the-axis-class-fixes-the-orientation)', not a and set(k) == {'min', 'max'} and k['min'] is f['min'] and k['max'] is f['max'])]
+
+
+CONTRACTS.append(RangeRoiMP())
